@@ -6,10 +6,16 @@
 // through any handle; a "sweep" = every read of the grid (all ten lookups, the
 // listing, Exist; 6-8 option values incl. MaxElements=1 with Offset 0,1,2, a
 // window, latest) through one handle in forward or reverse grid order; single
-// priming reads. Explicit-state BFS over the model state (content, per handle
-// the cache-filling events since its last write) with canonical-state
-// deduplication; every state's BFS-shortest path is replayed on a fresh
-// store+wrapper and followed by a sweep through each of the three handles.
+// priming reads.
+//
+// Explicit-state BFS over the model state (content, per handle the
+// cache-filling events since its last write) with canonical-state
+// deduplication. EVERY transition out of every state is replayed on a fresh
+// memory store + wrapper + handles (BFS-shortest path to the state, then the
+// operation) and then observed: by a sweep through each of the three handles
+// when the target state is new, by a sweep through the handle written through
+// when the target is already known (the model forgets that handle's cache on a
+// write; the implementation has to be seen doing so in every such transition).
 // Every read executed must equal the same call on the wrapped memory graph at
 // that moment.
 package main
@@ -241,7 +247,7 @@ func (m *mstate) apply(o op) {
 	}
 }
 
-func (m mstate) canon() string {
+func (m mstate) handleCanon() []string {
 	hs := make([]string, 3)
 	for h := range m.ev {
 		var b strings.Builder
@@ -250,6 +256,11 @@ func (m mstate) canon() string {
 		}
 		hs[h] = b.String()
 	}
+	return hs
+}
+
+func (m mstate) canon() string {
+	hs := m.handleCanon()
 	// h2 and h3 are interchangeable (both come from Store.Graph)
 	if hs[2] < hs[1] {
 		hs[1], hs[2] = hs[2], hs[1]
@@ -529,6 +540,42 @@ func analyse(ops []op, reads []read, mk []int, tt *truthTable, ms []mismatch) (c
 	return
 }
 
+// repeatedReads counts, among the reads of ops[from:], those the same handle
+// already issued since its own last write, and among these the ones with a
+// write through another handle in between.
+func repeatedReads(ops []op, nreads, from int) (rep, repStale int) {
+	var seen [3]map[int]bool // read -> a foreign write happened since
+	for h := range seen {
+		seen[h] = map[int]bool{}
+	}
+	for i, o := range ops {
+		if o.isWrite() {
+			for h := range seen {
+				if h == o.H {
+					seen[h] = map[int]bool{}
+				} else {
+					for k := range seen[h] {
+						seen[h][k] = true
+					}
+				}
+			}
+			continue
+		}
+		for _, ri := range readsOf(o, nreads) {
+			if stale, ok := seen[o.H][ri]; ok && i >= from {
+				rep++
+				if stale {
+					repStale++
+				}
+			}
+			if _, ok := seen[o.H][ri]; !ok {
+				seen[o.H][ri] = false
+			}
+		}
+	}
+	return
+}
+
 // ---- one replay ---------------------------------------------------------------------
 
 type mcase struct {
@@ -609,7 +656,10 @@ func main() {
 		common.Machinery("priming read not in grid")
 		return -1
 	}
-	singles := []int{find(lookup.Triples, 2), find(lookup.TriplesForSubject, 3), find(lookup.Objects, 2), len(reads) - 4 /* Exist(t0) */}
+	singles := []int{find(lookup.Triples, 2), len(reads) - 4 /* Exist(t0) */}
+	if v, err := strconv.Atoi(os.Getenv("VERIF_C19_SINGLES")); err == nil && v >= 0 && v <= len(singles) {
+		singles = singles[:v] // development aid
+	}
 	var alphabet []op
 	for h := 0; h < 3; h++ {
 		for t := range universe {
@@ -622,88 +672,137 @@ func main() {
 			alphabet = append(alphabet, op{Kind: "read", H: h, R: s})
 		}
 	}
-	// After its path every state is observed through all three handles, in
-	// both grid orders (sweep-rev through h1/h3 is also an operation of the
-	// alphabet, so it is the last, checked, operation of a successor state).
-	chains := [][]op{{{Kind: "sweep", H: 0}, {Kind: "sweep-rev", H: 1}, {Kind: "sweep", H: 2}}}
+	// Observation after a transition into a state seen for the first time: a
+	// sweep through each of the three handles (forward, reverse, forward grid
+	// order; the other direction of each handle is an operation of the alphabet).
+	chain := []op{{Kind: "sweep", H: 0}, {Kind: "sweep-rev", H: 1}, {Kind: "sweep", H: 2}}
 
 	type bnode struct {
 		m    mstate
 		path []op
 	}
+	type trans struct {
+		from  int
+		o     op
+		isNew bool
+	}
 	seen := map[string]bool{mstate{}.canon(): true}
 	frontier := []bnode{{}}
-	states, transitions, traces, evals, maxDepth := 0, 0, 0, 0, 0
-	modelTransitions := 0
+	states, transitions, traces, evals, maxDepth := 1, 0, 0, 0, 0
+	newStateObs, seenStateObs, selfLoops := 0, 0, 0
+	repeated, repeatedStale := 0, 0
 	var mu sync.Mutex
 	capped := false
-	var levelSizes []int
+	levelSizes := []int{1}
 	dry := os.Getenv("VERIF_C19_DRY") != "" // development aid: count model states only
-	for d := 0; d <= depth && len(frontier) > 0; d++ {
+
+	// check runs path+o+obs on a fresh store/wrapper and reports every mismatch
+	// from the operation o on (the path itself was checked as a shorter trace).
+	check := func(sh *lookup.Shard, path []op, tail []op) {
+		ops := append(append([]op{}, path...), tail...)
+		ms, n, fatal := replay(reads, ops, len(path))
+		rep, repStale := repeatedReads(ops, len(reads), len(path))
+		mu.Lock()
+		traces++
+		evals += n
+		repeated += rep
+		repeatedStale += repStale
+		mu.Unlock()
+		if fatal != "" {
+			sh.Fail(common.Failure{Check: "memo", Class: "memo-history", Shape: "operation-error", Case: mcase{Options: nopts, Ops: ops}, Detail: fatal})
+			return
+		}
+		if len(ms) == 0 {
+			return
+		}
+		cls, shs := analyse(ops, reads, mk, &tt, ms)
+		for j, m := range ms {
+			m := m
+			sh.FailLazy(cls[j], shs[j], func() common.Failure {
+				executed := ops[:m.opIdx+1]
+				return common.Failure{Check: "memo",
+					Case:   mcase{Options: nopts, Ops: executed, FailOp: m.opIdx, Read: m.readIdx, ReadStr: reads[m.readIdx].String()},
+					Detail: fmt.Sprintf("ops=%v\n %v through h%d\n wrapped graph: %s\n memoizer     : %s", executed, reads[m.readIdx], ops[m.opIdx].H+1, m.want, m.got)}
+			})
+		}
+	}
+	_ = repeated
+	if !dry {
+		root := make([]lookup.Shard, 1)
+		check(&root[0], nil, chain)
+		lookup.Flush(r, root)
+	}
+	for d := 0; d < depth && len(frontier) > 0; d++ {
 		if r.OutOfTime() {
 			capped = true
 			break
 		}
-		maxDepth = d
-		levelSizes = append(levelSizes, len(frontier))
-		// check every state of this level on the real code
-		shards := make([]lookup.Shard, len(frontier))
-		common.ParallelFor(len(frontier), func(i int) {
-			if r.OutOfTime() || dry {
-				return
-			}
-			nd := frontier[i]
-			lt, le, ltr := 0, 0, 0
-			for _, ch := range chains {
-				ops := append(append([]op{}, nd.path...), ch...)
-				from := len(nd.path) - 1
-				if from < 0 {
-					from = 0
-				}
-				ms, n, fatal := replay(reads, ops, from)
-				ltr++
-				le += n
-				lt += len(ops) - from
-				if fatal != "" {
-					shards[i].Fail(common.Failure{Check: "memo", Class: "memo-history", Shape: "operation-error", Case: mcase{Options: nopts, Ops: ops}, Detail: fatal})
-					continue
-				}
-				cls, shs := analyse(ops, reads, mk, &tt, ms)
-				for j, m := range ms {
-					m := m
-					shards[i].FailLazy(cls[j], shs[j], func() common.Failure {
-						executed := ops[:m.opIdx+1]
-						return common.Failure{Check: "memo",
-							Case:   mcase{Options: nopts, Ops: executed, FailOp: m.opIdx, Read: m.readIdx, ReadStr: reads[m.readIdx].String()},
-							Detail: fmt.Sprintf("ops=%v\n %v through h%d\n wrapped graph: %s\n memoizer     : %s", executed, reads[m.readIdx], ops[m.opIdx].H+1, m.want, m.got)}
-					})
-				}
-			}
-			mu.Lock()
-			transitions += lt
-			evals += le
-			traces += ltr
-			mu.Unlock()
-		})
-		lookup.Flush(r, shards)
-		states += len(frontier)
-		if d == depth {
-			break
-		}
-		// expand on the model
+		// 1. expand the level on the model: every operation out of every state
+		var ts []trans
 		var next []bnode
-		for _, nd := range frontier {
+		for i, nd := range frontier {
+			hs := nd.m.handleCanon()
 			for _, o := range alphabet {
+				if o.H == 2 && hs[1] == hs[2] {
+					continue // h2 and h3 are in the same state: the operation through h2 stands for both
+				}
 				m := nd.m.clone()
 				m.apply(o)
-				modelTransitions++
 				k := m.canon()
-				if !seen[k] {
+				if !o.isWrite() && k == nd.m.canon() {
+					// a read that fills nothing new: these very reads are part of the
+					// observation sweeps made when this state was first reached
+					selfLoops++
+					continue
+				}
+				isNew := !seen[k]
+				if isNew {
 					seen[k] = true
 					next = append(next, bnode{m, append(append([]op{}, nd.path...), o)})
 				}
+				ts = append(ts, trans{i, o, isNew})
 			}
 		}
+		// 2. replay every transition on the real code
+		shards := make([]lookup.Shard, len(ts))
+		common.ParallelFor(len(ts), func(i int) {
+			if dry || r.OutOfTime() {
+				return
+			}
+			t := ts[i]
+			tail := []op{t.o}
+			switch {
+			case t.isNew:
+				tail = append(tail, chain...)
+			case t.o.isWrite():
+				// the state is known; what this transition adds is that the
+				// handle written through must have dropped its cache
+				tail = append(tail, op{Kind: "sweep", H: t.o.H})
+			}
+			check(&shards[i], frontier[t.from].path, tail)
+		})
+		lookup.Flush(r, shards)
+		if r.Capped() {
+			capped = true // the level was cut by the deadline: what was found is reported, the level is not counted
+			break
+		}
+		for _, t := range ts {
+			if t.isNew {
+				newStateObs++
+			} else {
+				seenStateObs++
+			}
+		}
+		if len(ts) > 0 {
+			t := ts[len(ts)/2]
+			r.Sample(map[string]interface{}{"depth": d + 1, "target_state_new": t.isNew, "ops": append(append([]op{}, frontier[t.from].path...), t.o), "then": "sweeps (see cmd/c19/main.go)"})
+			t = ts[len(ts)-1]
+			r.Sample(map[string]interface{}{"depth": d + 1, "target_state_new": t.isNew, "ops": append(append([]op{}, frontier[t.from].path...), t.o), "then": "sweeps (see cmd/c19/main.go)"})
+		}
+		transitions += len(ts)
+		states += len(next)
+		levelSizes = append(levelSizes, len(next))
+		maxDepth = d + 1
 		frontier = next
 	}
 	stopProfile()
@@ -712,7 +811,9 @@ func main() {
 	}
 	r.Set("states", states)
 	r.Set("transitions", transitions)
-	r.Set("model_transitions", modelTransitions)
+	r.Set("transitions_into_new_states", newStateObs)
+	r.Set("transitions_into_known_states", seenStateObs)
+	r.Set("read_self_loops_not_replayed", selfLoops)
 	r.Set("traces_validated_against_impl", traces)
 	r.Set("evaluations", evals)
 	r.Set("states_per_depth", levelSizes)
@@ -724,17 +825,8 @@ func main() {
 	r.Set("alphabet", len(alphabet))
 	r.Set("reads_in_grid", len(reads))
 	r.Set("option_values", nopts)
-	nonEmpty := 0
-	for c := 0; c < 8; c++ {
-		for i := range reads {
-			if tt[c][i] != "" && tt[c][i] != "false" {
-				nonEmpty++
-			}
-		}
-	}
-	r.Set("distinct_nontrivial", nonEmpty)
-	r.Set("rule", "BFS over (content, per-handle cache-filling events) with ops {add,remove} x 3 triples x 3 handles, sweep / reverse sweep x 3 handles, priming reads x 3 handles; each state replayed on a fresh store+wrapper followed by a sweep through every handle; nontrivial = (content, read) pairs whose answer is non-empty, i.e. cacheable")
-	r.Sample(map[string]interface{}{"ops": []op{{Kind: "add", H: 0, T: 0}, {Kind: "sweep", H: 1}, {Kind: "add", H: 0, T: 2}, {Kind: "sweep", H: 1}}})
-	r.Sample(map[string]interface{}{"ops": []op{{Kind: "add", H: 2, T: 0}, {Kind: "add", H: 2, T: 1}, {Kind: "read", H: 0, R: singles[0]}, {Kind: "sweep-rev", H: 0}}})
+	r.Set("distinct_nontrivial", repeated)
+	r.Set("repeated_reads_after_write_through_other_handle", repeatedStale)
+	r.Set("rule", "BFS over (content, per-handle cache-filling events) with ops {add,remove} x 3 triples x 3 handles, sweep / reverse sweep x 3 handles, priming reads x 3 handles; every transition out of every state replayed on a fresh store+wrapper (path + operation), followed by a sweep through every handle when the target state is new, through the written handle otherwise; nontrivial = a checked read that the same handle had already issued since its own last write (the memoizer may answer it from its cache); each is a distinct (trace, position)")
 	r.Finish()
 }
